@@ -10,6 +10,7 @@ import (
 	"golang.org/x/telemetry/internal/telemetry"
 	"golang.org/x/telemetry/internal/vrt"
 	"golang.org/x/telemetry/internal/vrt/vos"
+	"golang.org/x/telemetry/internal/vrt/vtime"
 )
 
 const c9root = "/t"
@@ -247,4 +248,88 @@ func VC09_rotate() {
 	// a later day before the end: whichever file is current, it must end at the same
 	// instant (no count may be attributed to a different week)
 	vrt.Assert(exp2.Unix() == end*86400, "rotate: a file opened later in the week ends at the same week end")
+}
+
+// VC09_span_tick: the same with a clock that moves: every reading is later than or equal
+// to the one before and midnight may pass between any two readings inside the call. The
+// span must be the right one for a single "today" - the day of one of the readings.
+func VC09_span_tick() {
+	want := c9setup(true)
+	day := vrt.PoolDay(vrt.Param("run", 14))
+	tod := vrt.SecondOfDay()
+	crossed := false
+	reads := 0
+	CounterTime = func() time.Time {
+		reads++
+		if !crossed && reads > 1 && vrt.Bool() {
+			crossed = true
+			t2 := vrt.SecondOfDay()
+			vrt.Assume(t2 < 60) // just after midnight
+			tod = t2
+		} else if reads > 1 {
+			t2 := vrt.SecondOfDay()
+			vrt.Assume(t2 >= tod)
+			tod = t2
+		}
+		d := day
+		if crossed {
+			d = day + 1
+		}
+		return time.Unix(d*86400+tod, 0).UTC()
+	}
+	begin, end, err := counterSpan()
+	vrt.Assert(err == nil, "span (moving clock): no error with a weekends file")
+	if err != nil {
+		return
+	}
+	b, e := begin.Unix(), end.Unix()
+	okA := b == day*86400 && e == c9specEnd(day, want)*86400
+	okB := crossed && b == (day+1)*86400 && e == c9specEnd(day+1, want)*86400
+	vrt.Assert(okA || okB, "span (moving clock): begin and end belong to one and the same current day")
+}
+
+// VC09_timer: a process that stays up across several recorded ends, driven only by the
+// timers rotate arms for itself: whenever a span's end has been reached there is a
+// pending timer, and when it fires (at the end or a day late) the next span's file is
+// started and increments land only there.
+func VC09_timer() {
+	wd := c9setup(false)
+	day := vrt.PoolDay(vrt.Param("run", 7))
+	c9clock(day, vrt.SecondOfDay())
+	vtime.ResetTimers()
+	f := &file{buildInfo: c9bi}
+	f.rotate()
+	vrt.Assert(f.err == nil && f.current.Load() != nil, "timer: the first open succeeds")
+	if f.err != nil {
+		return
+	}
+	c := &Counter{name: "c", file: f}
+	cur := day
+	files := 1
+	for k := 0; k < vrt.Param("rotations", 3); k++ {
+		end := c9specEnd(cur, wd)
+		p := vtime.Pending()
+		vrt.Assert(len(p) >= 1, "timer: a rotation timer is pending for the current span's end")
+		if len(p) == 0 {
+			return
+		}
+		vrt.Assert(p[0].D >= time.Minute, "timer: the delay is at least the minimum")
+		// the timer fires: the clock shows the recorded end or the day after
+		cur = end + int64(vrt.Choose(2))
+		c9clock(cur, vrt.SecondOfDay())
+		p[0].Fire()
+		vrt.Assert(f.err == nil, "timer: rotation succeeds")
+		if f.err != nil {
+			return
+		}
+		files++
+		name := c9fileName(cur)
+		vrt.Assert(vos.Lookup(name) != nil && c9countFiles() == files, "timer: the timer-driven rotation starts the next span's file")
+		vrt.Assert(c9hasMeta(name, cur, c9specEnd(cur, wd)), "timer: the new file records the new span")
+		n := vrt.I64()
+		vrt.Assume(n > 0 && n < 1<<20)
+		c.Add(n)
+		v, ok := c9value(name, "c")
+		vrt.Assert(ok && v == uint64(n), "timer: increments after the rotation land in the new span's file")
+	}
 }
